@@ -96,6 +96,16 @@ Record exchange_item_result := ExchangeItemResult {
 Record exchange_batch_result := ExchangeBatchResult {
   er_version : N; er_items : list exchange_item_result }.
 
+(* Go zero values (the harness prints them by name: case files stay small) *)
+Definition z32 : bytes := repeat 0 32.
+Definition zI : chan_ident := ChanIdent [] [] 0.
+Definition zM : manifest := Manifest 0 0 0 0 z32 0 0 0 0 z32 z32.
+Definition zE : entry_ident := EntryIdent 0 0 0 0 0 0 0 z32 z32 z32.
+Definition zS : replica_state := ReplicaState 0 0 zM zE.
+Definition zRR : replicate_result := ReplicateResult 0 0 0 (ReplicateProof zI 0 0 zM).
+Definition zPR : probe_result := ProbeResult (ProbeRequest zI 0 0 None) zS None.
+Definition zFR : fetch_result := FetchResult (FetchRequest zI 0 0 zS 0 0 zE 0) zS None.
+
 (* ---- cursor methods ------------------------------------------------------------- *)
 
 Local Open Scope fmt_scope.
